@@ -126,7 +126,10 @@ Definition daily_ok (d : dump) : bool :=
 
 (* the canonical log of a content: one row per stored key in (room, entity, day) order, count and
    daily hash recounted, history chained along the room (the first row of a room starts the chain
-   with its daily hash) — what a peer computes that receives exactly this content and recomputes once *)
+   with its daily hash) — the log of a peer that receives exactly this content and recomputes once.
+   That single pass has a quirk which is part of the canonical form (it is a function of the
+   content all the same): a day that is followed by another day of the same room and entity is
+   chained a second time with its own daily hash (the read cursor yields the rewritten row again). *)
 Definition ckey_of (c : crow) : lkey := (c_croom c, c_cent c, day (c_cdate c)).
 Fixpoint kinsert (k : lkey) (l : list lkey) : list lkey :=
   match l with
@@ -143,8 +146,10 @@ Fixpoint canon_rows (cs : list crow) (ks : list lkey) (prev : option (N * option
       let hist := match prev with
                   | Some (pr, ph, pd) => if N.eqb pr r then match ph with Some p => Some (HC p pd) | None => None end else daily
                   | None => daily end in
+      let again := match t with (r2, e2, _) :: _ => N.eqb r2 r && N.eqb e2 e | [] => false end in
+      let hist' := if again then match hist with Some p => Some (HC p daily) | None => None end else hist in
       {| rr_room := r; rr_ent := e; rr_day := d; rr_n := N.of_nat (length sg); rr_dirty := false;
-         rr_daily := enc_oh daily; rr_hist := enc_oh hist |} :: canon_rows cs t (Some (r, hist, daily))
+         rr_daily := enc_oh daily; rr_hist := enc_oh hist' |} :: canon_rows cs t (Some (r, hist', daily))
   end.
 Definition canon_log (cs : list crow) : list rawrow := canon_rows cs (stored_keys cs) None.
 Definition rawrow_eqb (a b : rawrow) : bool :=
@@ -214,3 +219,9 @@ Definition known_C09 (c : c09case) : list Z :=
 
 Definition eval_C09 (c : c09case) (obs : list Z) : list Z :=
   [zb (zlist_eqb (run_C09 c) obs); zb (spec_C09 c obs)] ++ known_C09 c.
+
+(* the statement at full strength (refuted by the faithful model: props/C09.v) *)
+Definition no_pending (c : c09case) : bool :=
+  forallb (fun d => forallb (fun rw => negb (rr_dirty rw)) (d_log d)) (run_dumps c).
+Definition C09_full : Prop := forall c, no_pending c = true -> spec_C09 c (run_C09 c) = true.
+
